@@ -185,6 +185,75 @@ def check_narrow(ctx, case, o, raw, leaf, narrowing_applies):
         fail("plain decimal stays a string", "number")
 
 
+def check_array_content(ctx, m, tr, o, c, toks, views, trees, out):
+    """InnerSerArray on the implementation's own values(): the marker is skipped, `a op b` becomes a
+    single-entry object {a: b} (operator name wrapped unless '='), every other value stands for itself"""
+    di, idx, entry, enc, p, du, na = m
+    tok = toks[int(idx)]
+    if not ((tok[:2] in ("A:", "O:") and entry == "a") or (tok.startswith("A:") and entry == "v")):
+        return
+    view = views.get((di, idx, enc))
+    parts = C17.split_node(view) if view else None
+    av = C17.parse_view(parts[5]) if parts else None
+    if not av:
+        return
+    fail = lambda key, msg, exp=None: ctx.fail(key, "array node %s %s: %s" % (idx, du + na, msg), [c], [o], exp)
+    if du == "k":
+        ok = (tr is not True and tr is not False and tr[0] == "obj" and [a for a, _ in tr[1]] == [hx("type"), hx("val")]
+              and tr[1][0][1] == ("str", hx("array")) and tr[1][1][1][0] == "arr")
+        if not ok:
+            fail("content-kvp", "KeyValuePairs: not {type:array,val:[...]}")
+            return
+        elems = tr[1][1][1][1]
+    else:
+        if tr is True or tr is False or tr[0] != "arr":
+            fail("content", "an array must become a JSON array")
+            return
+        elems = tr[1]
+    vals, strs = av["v"], av["vs"]
+    exp = []
+    i = 0
+    while i < len(vals):
+        t0 = toks[vals[i]]
+        if t0 == "M":
+            i += 1
+        elif i + 2 < len(vals) and toks[vals[i + 1]].startswith("OP:"):
+            exp.append(("single", i, toks[vals[i + 1]][3:], i + 2))
+            i += 3
+        else:
+            exp.append(("plain", i))
+            i += 1
+    if len(elems) != len(exp):
+        fail("content-array", "%d elements for %d values (markers skipped, key-op-value triples folded)" % (len(elems), len(exp)), str(len(exp)))
+        return
+
+    def value_ok(val, vi):
+        vt = toks[vals[vi]]
+        if vt[:2] in ("U:", "Q:"):
+            applies = na == "a" or (na == "u" and vt[0] == "U")
+            return applies or val == ("str", strs[vi])
+        if vt[:2] in ("A:", "O:", "H:"):
+            q = (di, str(vals[vi]), "v", enc, p, du, na)
+            return q not in trees or trees[q] == val
+        return val == ("null",)
+
+    for e, x in zip(elems, exp):
+        if x[0] == "plain":
+            if not value_ok(e, x[1]):
+                fail("content-array", "value %d is not carried as itself" % x[1])
+                return
+        else:
+            _, ki, op, vi = x
+            key = strs[ki] if strs[ki] != "E" else hx("__invalid_key")
+            if e is True or e is False or e[0] != "obj" or len(e[1]) != 1 or e[1][0][0] != key:
+                fail("content-array", "triple at %d is not the single-entry object {key: value}" % ki)
+                return
+            val = unwrap_op(e[1][0][1], "-" if op == "6" else op)
+            if val is None or not value_ok(val, vi):
+                fail("content-op", "triple at %d: operator / value not carried" % ki)
+                return
+
+
 def run(ctx):
     rng = ctx.rng
     # ---- Scalar::to_f64 per function (model = exact integer arithmetic)
@@ -207,7 +276,7 @@ def run(ctx):
     ctx.correspond("to_f64", fcases, nontrivial=lambda c, i: not i.startswith("ERR"))
 
     # ---- documents
-    docs = C17.gen_docs(ctx, ctx.scale(300, 4000), ctx.scale(350, 5000), ctx.scale(500, 6000))
+    docs = C17.gen_docs(ctx, ctx.scale(500, 4000), ctx.scale(600, 5000), ctx.scale(800, 6000))
     ctx.count("documents", len(docs))
     parsed = C17.parse_docs(ctx, docs)
     # DOM views (implementation) of every node: what the content oracle compares the JSON with
@@ -251,6 +320,8 @@ def run(ctx):
     for m, (o, c) in out.items():
         if o in ("PANIC", "ABORT", "HANG"):
             ctx.fail("json-crash", "json() crashes", [c], [o], "a JSON text"); continue
+        if o == "OUTPUT-LIMIT":
+            ctx.fail("json-runaway", "json() does not terminate / produces unbounded output", [c], [o], "a JSON text"); continue
         if o.startswith(("INVALID", "FLOAT-LEX", "ENTRY-MISMATCH", "UNREACH")):
             ctx.fail("json-invalid", "the produced text is not valid JSON / entry points disagree: %s" % o, [c], [o], "valid JSON"); continue
         if o == "E":
@@ -281,6 +352,7 @@ def run(ctx):
                 ctx.fail("group-leaves", "Group and Preserve do not carry the same leaves", [out[q][1], c], [out[q][0], o])
         is_obj_node = idx == "top" or (toks[int(idx)].startswith("O:") and entry in "vo")
         if not is_obj_node:
+            check_array_content(ctx, m, tr, o, c, toks, views, trees, out)
             continue
         view = views.get((di, idx, enc))
         if not view or view in ("PANIC", "UNREACH"):
